@@ -303,9 +303,27 @@ func runHostile(seed int64, tier, vectors, out string, shards, only int) {
 	distinct := map[string]bool{}
 	samples := []interface{}{}
 	wfCount, deepest := 0, 0
+	// inputs that attack resources (a huge declared count / index) go through every entry point
+	// with both type maps; the others rotate through them
+	var expanded []item
+	var combos [][2]int
 	for i, it := range items {
-		api := hostileAPIs[i%len(hostileAPIs)]
-		tm := (i / len(hostileAPIs)) % 2
+		if it.mut == "big" {
+			for a := range hostileAPIs {
+				for tm := 0; tm < 2; tm++ {
+					expanded = append(expanded, it)
+					combos = append(combos, [2]int{a, tm})
+				}
+			}
+			continue
+		}
+		expanded = append(expanded, it)
+		combos = append(combos, [2]int{i % len(hostileAPIs), (i / len(hostileAPIs)) % 2})
+	}
+	items = expanded
+	for i, it := range items {
+		api := hostileAPIs[combos[i][0]]
+		tm := combos[i][1]
 		id := n
 		n++
 		if only >= 0 && id != only {
